@@ -26,7 +26,7 @@ LEVEL = "exploration"
 
 HOWS = ("target", "target_absmix", "template", "template_wd", "map_none", "map_str", "map_func")
 WF_WDS = ("inherit", "explicit_proj", "explicit_other")
-INVOKE = ("root", "nested", "unrelated_abs", "unrelated_rel", "objname", "symlink")
+INVOKE = ("root", "nested", "unrelated_abs", "unrelated_rel", "objname", "symlink", "fname_gwf_nested", "fname_gwf_unrelated", "fname_dash_unrelated")
 
 
 def wf_source(how, wf_wd, objname="gwf"):
@@ -97,6 +97,14 @@ def where_batch(acc, batch):
                     if not os.path.islink(link):
                         os.symlink(s.proj, link)
                     cwd, pre = other, ["-f", os.path.join(link, "workflow.py")]
+                elif inv.startswith("fname_"):
+                    # the workflow file has another name (one that starts like the package's own modules, one that is not an identifier)
+                    fname = "gwf_pipeline.py" if "_gwf_" in inv else "flow-1.py"
+                    os.replace(os.path.join(s.proj, "workflow.py"), os.path.join(s.proj, fname))
+                    if inv.endswith("nested"):
+                        cwd, pre = os.path.join(s.proj, "nested", "dir"), ["-f", "../../" + fname]
+                    else:
+                        cwd, pre = other, ["-f", os.path.join(s.proj, fname)]
                 else:
                     cwd, pre = s.proj, ["-f", "workflow.py:flow"]
                 r1 = s.gwf(pre + ["info"], cwd=cwd, env={"C19_PROBE": probe})
